@@ -1,6 +1,6 @@
 //! `silencer` stream (C09): the real `SilencerEmulator` against the Lean model, plus the
-//! implementation oracle (completes within `v` updates, shorter arc, monotone, no overshoot,
-//! bounded rate).
+//! implementation oracle (completes within `v` updates — in update-rate mode within distance/rate
+//! updates —, shorter arc, monotone, no overshoot, bounded rate).
 use crate::common::*;
 use crate::dev::*;
 use autd3::prelude::*;
@@ -105,13 +105,21 @@ fn history_ho(ctx: &mut Ctx, phase: bool, fixed: bool, value: u16, initial: u8, 
             None
         });
         // ---- oracle ----
+        // From a settled filter (accumulator exactly on `prev_target`) a transition completes within `need` updates and
+        // stays: `need` = the configured number of steps, or in update-rate mode the distance (in 1/256 steps, shorter
+        // arc for the phase) divided by the rate, rounded up; and it moves monotonically along the shorter way.
         let mut bad: Option<String> = None;
-        if !fixed && settled {
-            let v = value as u32;
-            // (1) completes within v updates and stays
+        let dist = if phase { circ(prev_target, t) } else { (t as i32 - prev_target as i32).unsigned_abs() };
+        let need = if fixed { (dist * 256).div_ceil(value as u32) } else { value as u32 };
+        if settled {
+            // (1) completes within `need` updates and stays
             for (k, &o) in outs.iter().enumerate() {
-                if (k as u32) + 1 >= v && o != t {
-                    bad = Some(format!("not complete after {} updates (v={v}): output {o}, target {t}", k + 1));
+                if (k as u32) + 1 >= need && o != t {
+                    bad = Some(if fixed {
+                        format!("not complete after {} updates (rate {value}/256 per update, distance {dist}: {need} updates suffice): output {o}, target {t}", k + 1)
+                    } else {
+                        format!("not complete after {} updates (v={value}): output {o}, target {t}", k + 1)
+                    });
                     break;
                 }
             }
@@ -135,6 +143,7 @@ fn history_ho(ctx: &mut Ctx, phase: bool, fixed: bool, value: u16, initial: u8, 
                     prev = o;
                 }
             }
+            ctx.out.count(if fixed { "oracle:settled-transitions(rate-mode)" } else { "oracle:settled-transitions(steps-mode)" });
         }
         if fixed {
             // the output byte cannot move by more than ceil(value/256)+1 per update
@@ -143,7 +152,7 @@ fn history_ho(ctx: &mut Ctx, phase: bool, fixed: bool, value: u16, initial: u8, 
             for (k, &o) in outs.iter().enumerate() {
                 if let Some(p) = prev {
                     let d = if phase { circ(o, p) } else { (o as i32 - p as i32).unsigned_abs() };
-                    if d > lim {
+                    if d > lim && bad.is_none() {
                         bad = Some(format!("update-rate mode: update {} moved the output by {d} > {lim}", k + 1));
                         break;
                     }
@@ -152,13 +161,16 @@ fn history_ho(ctx: &mut Ctx, phase: bool, fixed: bool, value: u16, initial: u8, 
             }
         }
         if let Some(what) = bad {
-            let key = format!("silencer:{kind}:v{value}:{tag}:{prev_target}>{t}");
-            ctx.out.violation(key, format!("{} filter, value {value}: {what}", if phase { "phase" } else { "intensity" }), replay.clone());
+            let key = format!("silencer:{kind}:{}{value}:{tag}:{prev_target}>{t}", if fixed { "r" } else { "v" });
+            ctx.out.violation(key, format!("{} filter, {} {value}: {what}", if phase { "phase" } else { "intensity" }, if fixed { "update rate" } else { "completion steps" }), replay.clone());
         }
-        settled = !fixed && reps >= value as u32 && outs.last() == Some(&t);
-        if fixed {
-            settled = outs.last() == Some(&t) && outs.len() >= 2 && outs[outs.len() - 2] == t;
-        }
+        settled = if fixed {
+            // exactly on the target: reached from a settled start, or after as many updates as any start needs
+            let worst = if phase { 32768u32 } else { 65535 }.div_ceil(value as u32);
+            outs.last() == Some(&t) && ((settled && reps >= need) || reps >= worst)
+        } else {
+            reps >= value as u32 && outs.last() == Some(&t)
+        };
         prev_target = t;
     }
 }
@@ -183,13 +195,37 @@ pub fn run(args: &Args) {
         ctx.out.count("winding-histories");
         ctx.out.count("winding-histories");
     }
+    // the same windings in update-rate mode: each target is reached (ceil(128*256/rate) + 1 updates suffice for any
+    // distance), so the accumulator is carried twice round before the probe
+    for v in [256u16, 1000, 4096, 65535, 1, 255, 257] {
+        let reps = (128u32 * 256).div_ceil(v as u32) + 1;
+        if reps > 4000 && !thorough {
+            continue; // rate 1: 32769 updates per target — thorough tier only
+        }
+        let segs: Vec<(u8, u32)> = [85u8, 170, 0, 85, 170, 0, 85, 170, 0, 128, 0].iter().map(|&t| (t, reps)).collect();
+        history(&mut ctx, true, true, v, 0, &segs, "rate-wind-up");
+        let segs: Vec<(u8, u32)> = [170u8, 85, 0, 170, 85, 0, 170, 85, 0, 127, 1].iter().map(|&t| (t, reps)).collect();
+        history(&mut ctx, true, true, v, 0, &segs, "rate-wind-down");
+        // the intensity filter has no wrap: the same targets, full-range swings
+        let segs: Vec<(u8, u32)> = [255u8, 0, 255, 1, 254, 0, 128, 127, 255, 0].iter().map(|&t| (t, (255u32 * 256).div_ceil(v as u32) + 1)).collect();
+        history(&mut ctx, false, true, v, 0, &segs, "rate-swing");
+        ctx.out.count_n("winding-histories(rate-mode)", 2);
+    }
 
     // exhaustive (start, target) for small step counts: every ordered pair, from a state that was
     // reached by a previous transition (arbitrary rate memory), both filters
-    let small: Vec<u16> = if thorough { (1..=64).chain([100, 127, 128, 129, 200, 255, 256, 257]).collect() } else { vec![1, 2, 3, 7, 10, 40] };
-    for &v in &small {
+    // (step count, stride of the start values): the strided ones cover the regimes the small counts do not have within one
+    // value — 100: quotient 1..327 with every remainder schedule; 300: quotient 0 for the shortest distance, remainder > 255
+    let small: Vec<(u16, usize)> = if thorough {
+        (1..=64).chain([100, 127, 128, 129, 200, 255, 256, 257]).map(|v| (v, 1)).chain([(300, 4), (511, 8)]).collect()
+    } else {
+        vec![(1, 1), (2, 1), (3, 1), (7, 1), (10, 1), (40, 1), (100, 4), (300, 16)]
+    };
+    for &(v, stride) in &small {
         for phase in [false, true] {
-            for start in 0..=255u8 {
+            for start in (0..=255u8).step_by(stride) {
+                // strided starts shift with the filter so that both together see more residues
+                let start = if stride > 1 { start.wrapping_add(if phase { 1 } else { 0 }) } else { start };
                 let mut segs = Vec::with_capacity(512);
                 for target in 0..=255u8 {
                     segs.push((target, v as u32 + 1));
@@ -197,12 +233,15 @@ pub fn run(args: &Args) {
                 }
                 history(&mut ctx, phase, false, v, start, &segs, "pairs");
                 // the same with a hand-over in the middle of every transition (one offset per start value)
-                if v > 1 && (thorough || start % 4 == 0) {
+                if v > 1 && (thorough || start % 4 == 0) && stride == 1 {
                     history_ho(&mut ctx, phase, false, v, start, &segs, "pairs-handover", Some(1 + (start as u32) % (v as u32 - 1).max(1)));
                     ctx.out.count("handover-histories");
                 }
             }
-            ctx.out.count_n("exhaustive-pairs(v,kind)", 1);
+            ctx.out.count_n(if stride == 1 { "exhaustive-pairs(v,kind)" } else { "strided-pairs(v,kind)" }, 1);
+            if stride > 1 {
+                ctx.out.count(&format!("strided-pairs:v={v}:every-{stride}th-start-x-256-targets"));
+            }
         }
     }
     // large step counts: boundary and random pairs
@@ -225,27 +264,32 @@ pub fn run(args: &Args) {
             }
         }
     }
-    // random winding walks (phase): many small steps in one direction, several turns, then a probe
-    let walks = if thorough { 400 } else { 60 };
+    // random winding walks (phase): many small steps in one direction, several turns, then a probe; a third of them in
+    // update-rate mode with rates that reach every target (the rate-mode accumulator is wound as well)
+    let walks = if thorough { 600 } else { 90 };
     for _ in 0..walks {
-        let v = *rng.pick(&[1u16, 2, 5, 10, 40, 100]);
+        let fixed = rng.chance(1, 3);
+        let v = if fixed { *rng.pick(&[256u16, 300, 700, 1000, 4096, 30000, 65535]) } else { *rng.pick(&[1u16, 2, 5, 10, 40, 100]) };
         let dir_up = rng.chance(1, 2);
         let mut cur = rng.below(256) as u8;
         let initial = cur;
         let mut segs = vec![];
         let turns = rng.range(1, 5);
         let mut travelled = 0u64;
+        let reps_for = |d: u32, rng: &mut Rng| if fixed { (d * 256).div_ceil(v as u32) + rng.below(2) as u32 } else { v as u32 + rng.below(2) as u32 };
         while travelled < turns * 256 {
             let step = rng.range(1, 127) as u8;
             cur = if dir_up { cur.wrapping_add(step) } else { cur.wrapping_sub(step) };
             travelled += step as u64;
-            segs.push((cur, v as u32 + rng.below(2) as u32));
+            segs.push((cur, reps_for(step as u32, &mut rng)));
         }
         for _ in 0..3 {
-            segs.push((rng.below(256) as u8, v as u32 + 1));
+            let t = rng.below(256) as u8;
+            segs.push((t, reps_for(circ(cur, t), &mut rng).max(1)));
+            cur = t;
         }
-        history(&mut ctx, true, false, v, initial, &segs, "walk");
-        ctx.out.count("winding-walks");
+        history(&mut ctx, true, fixed, v, initial, &segs, if fixed { "rate-walk" } else { "walk" });
+        ctx.out.count(if fixed { "winding-walks(rate-mode)" } else { "winding-walks" });
     }
     // interrupted transitions (targets changed before completion) — correspondence only
     for _ in 0..(if thorough { 400 } else { 60 }) {
